@@ -120,9 +120,21 @@ def gen_huge_layer(rng):
     return items, {"nodeSpacing": rng.choice([3, 0, 1]), "minPos": None, "maxPos": None}
 
 
+def gen_offset_layer(rng):
+    """a crowded layer between two bounds FAR from the origin (an axis that starts at 1e6 … 1e8) with labels of unequal widths: the wall
+    weights (1e10) times such positions leave rounding noise in the block sums, and the solver then really splits blocks on removeOverlap's
+    instances (in exact arithmetic it never does: C05.path_first_pass_multipliers_nonneg)"""
+    base = rng.choice([1e6, 1e7, 1e8, 1e8])        # not beyond: from about 5e8 on the unchanged solver can oscillate for ever (known finding F5)
+    n = rng.randint(3, 12)
+    items = [(base + rng.randint(0, 300), float(rng.choice([10, 20, 40, 60, 80])), rng.random() < 0.05) for _ in range(n)]
+    return items, {"nodeSpacing": rng.choice([3, 3, 3, 1, 5]), "minPos": base, "maxPos": base + rng.choice([300, 400, 600])}
+
+
 def gen_layer(rng, tier):
     if rng.random() < 0.04:
         return gen_huge_layer(rng)
+    if rng.random() < 0.10:
+        return gen_offset_layer(rng)
     if rng.random() < 0.12:
         return gen_sparse_layer(rng)
     big = tier != "quick"
@@ -234,4 +246,15 @@ CORPUS_LAYERS = [
     ("exact-fit", [(50, 10, False), (50, 10, False), (50, 10, False)], {"minPos": 0, "maxPos": 36, "nodeSpacing": 3}),
     ("rounding-ties", [(0.5, 1, False), (2.5, 1, False), (4.5, 1, False)], {"minPos": None, "nodeSpacing": 0}),
     ("single", [(7.5, 3, False)], {}),
+    # layers far from the origin on which the FLOAT run splits a block (wall weight 1e10 x offset 1e8 leaves rounding noise in the block sums);
+    # in exact arithmetic removeOverlap's instances never split.  Found with the seeded change C01-populate-split-iterative-leftover-var.
+    ("far-offset-split-3", [(1e8 + 204, 40.0, False), (1e8 + 284, 60.0, False), (1e8 + 169, 80.0, False)], {"minPos": 1e8, "maxPos": 1e8 + 300, "nodeSpacing": 3}),
+    ("far-offset-split-5a", [(1e8 + 33, 10.0, False), (1e8 + 166, 20.0, False), (1e8 + 213, 40.0, False), (1e8 + 214, 10.0, False), (1e8 + 232, 80.0, False)],
+     {"minPos": 1e8, "maxPos": 1e8 + 300, "nodeSpacing": 3}),
+    ("far-offset-split-5b", [(1e8 + 148, 10.0, False), (1e8 + 179, 80.0, False), (1e8 + 84, 60.0, False), (1e8 + 43, 60.0, False), (1e8 + 132, 40.0, False)],
+     {"minPos": 1e8, "maxPos": 1e8 + 300, "nodeSpacing": 3}),
+    ("far-offset-split-5c", [(1e8 + 157, 40.0, False), (1e8 + 195, 10.0, False), (1e8 + 32, 80.0, False), (1e8 + 101, 60.0, False), (1e8 + 117, 10.0, False)],
+     {"minPos": 1e8, "maxPos": 1e8 + 600, "nodeSpacing": 3}),
+    ("far-offset-split-6", [(1e8 + 52, 10.0, False), (1e8 + 214, 80.0, False), (1e8 + 168, 60.0, False), (1e8 + 20, 10.0, False), (1e8 + 58, 10.0, False), (1e8 + 285, 40.0, False)],
+     {"minPos": 1e8, "maxPos": 1e8 + 300, "nodeSpacing": 3}),
 ]
